@@ -38,6 +38,7 @@ type poolKey struct {
 	kind   kind
 	num    float64 // kNumber: magnitude
 	pos    int     // kWeekday: Sunday=0..Saturday=6; kMonth: January=0..
+	big    bool    // kNumber: |value| >= 2^53, spelled so that several keys are one float64
 	layout string  // kDate: which spelling
 	day    int     // kDate: days since 2000-01-01 (only the order matters)
 }
@@ -64,6 +65,62 @@ var pool = []poolKey{
 	{s: "01/02/2006", kind: kDate, layout: "us", day: 2193},
 	{s: "12/31/2005", kind: kDate, layout: "us", day: 2191},
 	{s: "nan", kind: kNaN, num: math.NaN()},
+	// Integers beyond 2^53 and their neighbours: as float64 the three keys of
+	// each sign are the SAME number (the magnitude a float64 comparison can
+	// see), so the semantic clause S6 accepts any order among them; what is
+	// demanded is that the decisions are strict, transitive and permutation
+	// independent (S2-S4) however the comparator mixes integer and float paths.
+	{s: "9007199254740992", kind: kNumber, num: 9007199254740992, big: true},
+	{s: "9007199254740993", kind: kNumber, num: 9007199254740992, big: true},
+	{s: "9007199254740992.5", kind: kNumber, num: 9007199254740992, big: true},
+	{s: "9.007199254740993e15", kind: kNumber, num: 9007199254740992, big: true},
+	{s: "-9007199254740992", kind: kNumber, num: -9007199254740992, big: true},
+	{s: "-9007199254740993", kind: kNumber, num: -9007199254740992, big: true},
+	{s: "-9007199254740992.5", kind: kNumber, num: -9007199254740992, big: true},
+}
+
+// Views: the enumerations (subsets, permutations, axioms) run inside a view of
+// the pool, so that adding keys for one defect class does not multiply the
+// whole space.
+type view struct {
+	name      string
+	keys      []int   // pool indexes
+	values    []int64 // totals a value sort sees (name sorts see an alternating 1,2,...)
+	valueOnly bool    // only the value sorts are run on this view
+	maxSetQ   int     // largest subset, quick
+	maxSetT   int     // largest subset, thorough
+}
+
+const (
+	maxInt64 = int64(math.MaxInt64)
+	minInt64 = int64(math.MinInt64)
+)
+
+func poolRange(from, to int) []int {
+	var out []int
+	for i := from; i < to; i++ {
+		out = append(out, i)
+	}
+	return out
+}
+
+func poolIdx(names ...string) []int {
+	var out []int
+	for _, n := range names {
+		i := poolIndex(n)
+		if i < 0 {
+			panic("harness: not in pool: " + n)
+		}
+		out = append(out, i)
+	}
+	return out
+}
+
+var views = []view{
+	{name: "main", keys: poolRange(0, 21), values: []int64{1, 2}, maxSetQ: 4, maxSetT: 5},
+	{name: "beyond-2^53", keys: append(poolRange(21, 28), poolIdx("2", "10", "-3", "1x", "a")...), values: []int64{1, 2}, maxSetQ: 4, maxSetT: 5},
+	// totals whose difference does not fit int64 (value sorts only)
+	{name: "huge-totals", keys: poolIdx("1", "a", "mon", "B"), values: []int64{1, 2, 6000000000000000000, -6000000000000000000, maxInt64, minInt64}, valueOnly: true, maxSetQ: 3, maxSetT: 4},
 }
 
 func poolIndex(s string) int {
@@ -116,11 +173,25 @@ func classifyEx(mode string, keys []*poolKey, values []int64, tiesFirst bool) (l
 		return "text", "any-keys"
 	case "value":
 		seen := map[int64]bool{}
-		for _, v := range values {
+		tied := false
+		mn, mx := int64(0), int64(0)
+		for i, v := range values {
 			if seen[v] {
-				return "value", "tied-values"
+				tied = true
 			}
 			seen[v] = true
+			if i == 0 || v < mn {
+				mn = v
+			}
+			if i == 0 || v > mx {
+				mx = v
+			}
+		}
+		if mn < 0 && mx > 0 && mx > maxInt64+mn { // mx - mn overflows int64
+			return "value", "totals-differ-by-more-than-maxint64"
+		}
+		if tied {
+			return "value", "tied-values"
 		}
 		return "value", "distinct-values"
 	case "date":
@@ -160,6 +231,9 @@ func classifyEx(mode string, keys []*poolKey, values []int64, tiesFirst bool) (l
 					nums = append(nums, k)
 				}
 			}
+			if equalBig(nums) {
+				return "numeric", "same-float64-beyond-2^53"
+			}
 			if equalMagnitudes(nums) {
 				return "numeric", "equal-number-spellings"
 			}
@@ -186,6 +260,17 @@ func samePosition(keys []*poolKey) bool {
 			return true
 		}
 		seen[k.pos] = true
+	}
+	return false
+}
+
+func equalBig(keys []*poolKey) bool {
+	for i := range keys {
+		for j := i + 1; j < len(keys); j++ {
+			if keys[i].big && keys[j].big && keys[i].num == keys[j].num {
+				return true
+			}
+		}
 	}
 	return false
 }
